@@ -28,7 +28,7 @@ def abstract_document(r, xml=False):
     def value():
         k = r.choice(["str", "int", "float", "bool", "dt", "uri", "qn", "lang", "typed_int", "foreign_lit", "typed_str", "typed_bool", "typed_double"])
         if k == "str":
-            return ["str", r.choice(["a", "hello world", "", "é中", "x<y&z", 'q"t', "line\nbreak", "5", "true"])]
+            return ["str", r.choice(["a", "hello world", "", "é中", "x<y&z", 'q"t', "line\nbreak", "5", "true", "  lead", "trail  ", " "])]
         if k == "int":
             return ["int", r.choice([0, 1, -7, 42, 2 ** 40, 2 ** 53 + 1, 9223372036854775807, -(2 ** 63) + 1, 10 ** 17 + 3])]
         if k == "float":
@@ -47,7 +47,7 @@ def abstract_document(r, xml=False):
         if k == "typed_int":
             return ["typed", str(r.choice([3, -12, 7, 2 ** 53 + 1, 9223372036854775807, 9007199254740993])), r.choice(["int", "long"]), r.random() < 0.5]
         if k == "typed_str":
-            return ["typed", r.choice(["abc", "", "x y"]), "string", False]
+            return ["typed", r.choice(["abc", "", "x y", "  lead", "trail  ", " ", "line\n", "\tboth\t"]), "string", False]
         if k == "typed_bool":
             return ["typed", r.choice(["true", "false", "1", "0"]), "boolean", r.random() < 0.5]
         if k == "typed_double":
@@ -392,6 +392,12 @@ class XmlWriter:
             self.features.add("comment")
         for rec in self.doc["records"]:
             out += self.record(rec, docmap, "  ")
+        if r.random() < 0.03:
+            # scale: a dozen elements that each re-bind one prefix locally (other tools declare namespaces where they use them)
+            sp = r.choice(["st", pfx[0]])
+            for i in range(r.randint(12, 15)):
+                out += '  <prov:entity xmlns:%s="http://storm.example/%d/" prov:id="%s:e%d"><%s:v>%d</%s:v></prov:entity>\n' % (sp, i, sp, i % 3, sp, i, sp)
+            self.features.add("prefix_storm")
         for b in self.doc["bundles"]:
             m = dict(docmap)
             decl = ""
